@@ -5553,6 +5553,9 @@ void SoPlexBase<R>::setBasis(const typename SPxSolverBase<R>::VarStatus rows[],
 {
    _rationalLUSolver.clear();
 
+   // let the solver validate and repair the statuses (loadDesc) instead of storing the arrays as they are
+   _ensureRealLPLoaded();
+
    if(_isRealLPLoaded)
    {
       assert(numRows() == _solver.nRows());
